@@ -240,6 +240,10 @@ impl<'a> Tx<'a> {
             syn::Expr::Field(fe) if self.ops && matches!(&fe.member, syn::Member::Named(i) if i == "node") && self.node_ptr(&fe.base).is_some() => {
                 self.node_ptr(&fe.base).unwrap()
             }
+            syn::Expr::Field(fe) if self.ops && matches!(&fe.member, syn::Member::Named(i) if i == "value") && matches!(&*fe.base, syn::Expr::Path(pp) if pp.path.is_ident("not_inserted")) => {
+                // a Box<Linked<V>> handed back to the caller: its value is the value id
+                "not_inserted".to_string()
+            }
             syn::Expr::Field(fe) if self.ops && matches!(&*fe.base, syn::Expr::Path(pp) if pp.path.is_ident("changed")) => {
                 format!("changed_{}", toks(&fe.member))
             }
@@ -330,7 +334,7 @@ impl<'a> Tx<'a> {
                     }
                     return format!("h.make_bin({}, {})", root, first);
                 }
-                if self.ops && n.contains("::") {
+                if self.ops && (n.contains("::") || n == "TryInsertError") {
                     let mut fs = vec![];
                     for f in &s.fields {
                         let v = self.expr(&f.expr);
@@ -433,6 +437,10 @@ impl<'a> Tx<'a> {
                 // R38: the user callback is an arbitrary fixed predicate of its arguments
                 let args: Vec<String> = c.args.iter().map(|a| self.expr(a)).collect();
                 return format!("pred({})", args.join(", "));
+            }
+            "Ok" | "Err" if self.ops && c.args.len() == 1 => {
+                let a = self.expr(&c.args[0]);
+                return format!("{}({})", p, a);
             }
             "Some" if self.ops => {
                 let a = self.expr(&c.args[0]);
@@ -1081,6 +1089,32 @@ impl<'a> Tx<'a> {
                 self.ret_count += 1;
                 self.mark(ind, format!("ret#{}", k));
                 self.push(ind, toks(e), ln, true);
+            }
+            syn::Expr::Match(m) if self.ops && !semi && ind == 1 && !m.arms.iter().any(|a| toks(&a.pat).starts_with("BinEntry")) => {
+                // R43: a match in tail position is the function's value: each arm returns its value
+                let scrut = self.expr(&m.expr);
+                let scrut = self.hoist(scrut);
+                let pre: Vec<String> = self.pre.drain(..).collect();
+                for p0 in pre {
+                    self.push(ind, p0, ln, true);
+                }
+                self.push(ind, format!("match {} {{", scrut), ln, false);
+                for a in &m.arms {
+                    self.push(ind + 1, format!("{} => {{", toks(&a.pat)), a.span().start().line, false);
+                    match &*a.body {
+                        syn::Expr::Block(bb) if bb.block.stmts.len() == 1 && toks(&bb.block).contains("unreachable !") => self.push(ind + 2, "assert(false); loop invariant false decreases 0int { }".into(), a.span().start().line, true),
+                        syn::Expr::Macro(mm) if mm.mac.path.is_ident("unreachable") => self.push(ind + 2, "assert(false); loop invariant false decreases 0int { }".into(), a.span().start().line, true),
+                        other => {
+                            let k = self.ret_count;
+                            self.ret_count += 1;
+                            self.mark(ind + 2, format!("ret#{}", k));
+                            let t = self.expr(other);
+                            self.push(ind + 2, format!("return {};", t), a.span().start().line, true);
+                        }
+                    }
+                    self.push(ind + 1, "}".into(), 0, false);
+                }
+                self.push(ind, "}".into(), 0, false);
             }
             syn::Expr::Match(m) => {
                 // statement-level match: arms as blocks
